@@ -37,6 +37,17 @@ def control_space(tier, rng, k, n):
                        {"vc": vc, "fp": fp, "declared": declared, "present": present})
 
 
+def dict_lengths(size):
+    """declared lengths suggested by integers the current source mentions and the baseline tree did not"""
+    from . import dictionary
+    out = set()
+    for v in dictionary.harvest()["novel_ints"]:
+        for x in (v - 1, v, v + 1, v + size, v + size + 16):
+            if 0 <= x <= 65535:
+                out.add(x)
+    return sorted(out)[:48]
+
+
 def control_v2(tier, rng, k, n):
     """v2-1b: version nibble 2 with every command nibble x every family-transport byte: the part of the
     control space behind the version gate (commands, families, transports, length checks)"""
@@ -55,6 +66,8 @@ def control_v2(tier, rng, k, n):
             else:
                 lengths = sorted(set(near + LENGTH_TABLE[:-1]))
                 deltas_for = lambda: [-1, 0, 1, 7]
+            if vc in VALID_VC and fp in VALID_FP:
+                lengths = lengths + [x for x in dict_lengths(size) if x not in lengths]
             for declared in lengths:
                 for delta in deltas_for():
                     present = max(declared + delta, 0)
@@ -73,6 +86,36 @@ def signature(tier, rng, k, n):
                 b = bytearray(base)
                 b[i] = v
                 cases.append(("v2-sig-corrupt", bytes(b), {"elem": "sig", "index": i}))
+    # corruptions of two or three signature bytes at once, chosen so that a checksum-like comparison (xor fold, byte
+    # sum, sorted bytes, first/last only) would not notice: equal xor deltas, +d/-d, swaps, three-way xor-cancelling
+    deltas = [1, 0x20, 0x80, 0xFF] if tier == "quick" else list(range(1, 256))
+    for i in range(12):
+        for j in range(i + 1, 12):
+            for d in deltas:
+                b = bytearray(base)
+                b[i] ^= d
+                b[j] ^= d
+                cases.append(("v2-sig-corrupt2", bytes(b), {"elem": "sig", "index": i}))
+                b = bytearray(base)
+                b[i] = (b[i] + d) & 255
+                b[j] = (b[j] - d) & 255
+                cases.append(("v2-sig-corrupt2", bytes(b), {"elem": "sig", "index": i}))
+            if SIG[i] != SIG[j]:
+                b = bytearray(base)
+                b[i], b[j] = b[j], b[i]
+                cases.append(("v2-sig-corrupt2", bytes(b), {"elem": "sig", "index": i}))
+            for l in range(j + 1, 12):
+                d1, d2 = 1 + rng.below(255), 1 + rng.below(255)
+                if d1 != d2:
+                    b = bytearray(base)
+                    b[i] ^= d1
+                    b[j] ^= d2
+                    b[l] ^= d1 ^ d2
+                    cases.append(("v2-sig-corrupt2", bytes(b), {"elem": "sig", "index": i}))
+    for whole in (bytes(reversed(SIG)), bytes(sorted(SIG)), SIG[1:] + SIG[:1], bytes(x ^ 0x20 for x in SIG), SIG.lower(),
+                  SIG[:6] + SIG[:6], SIG[6:] + SIG[6:], SIG[6:] + SIG[:6]):
+        if whole != SIG:
+            cases.append(("v2-sig-corrupt2", whole + base[12:], {"elem": "sig", "index": 0}))
     for i in range(0, 13):
         cases.append(("v2-sig-prefix", SIG[:i], {}))
         for wrong in (0, 13, 10, 80, 255):
@@ -87,17 +130,54 @@ def signature(tier, rng, k, n):
             yield (s, hx(b), m)
 
 
+SUB_TYPES = [0x21, 0x22, 0x23, 0x24, 0x25]
+
+
+def structured_value(rng, k):
+    """TLV values with the inner structure real proxies send (random bytes never have it): a value that is itself a
+    well-formed TLV chain, the PP2_TYPE_SSL layout (client bit-field, 4-byte verify, sub-TLVs), text, a CRC"""
+    def chain(types, nmax):
+        out = bytearray()
+        for _ in range(1 + rng.below(nmax)):
+            v = rng.choice([b"", b"h2", b"TLSv1.3", b"example.com", b"ECDHE-RSA-AES128-GCM-SHA256", rng.bytes(rng.below(6))])
+            out += enc_tlv(rng.choice(types), v)
+        return bytes(out)
+    pick = rng.below(5)
+    if k == 0x20 or pick == 0:
+        client = rng.choice([0, 1, 1, 3, 5, 7, 255])
+        verify = rng.choice([bytes(4), bytes([0, 0, 0, 1]), rng.bytes(4)])
+        tail = rng.choice([b"", chain(SUB_TYPES, 3), chain(SUB_TYPES, 3), chain(SUB_TYPES, 2)[:-1], rng.bytes(rng.below(5))])
+        return bytes([client]) + verify + tail
+    if pick == 1:
+        return chain([1, 2, 3, 4, 5, 0x20, 0x30, rng.below(256)], 3)
+    if pick == 2:
+        return rng.choice([b"h2", b"http/1.1", b"example.com", b"\x00", b"ns-1", b"PROXY TCP4 1.1.1.1 2.2.2.2 1 2\r\n"])
+    if pick == 3:
+        return rng.bytes(4)
+    return SIG
+
+
 def random_tlvs(rng, budget, wellformed=True):
     """a TLV section of at most `budget` bytes"""
     out = bytearray()
     while True:
         if rng.chance(1, 4):
             break
-        ln = rng.choice([0, 0, 1, 1, 2, 3, 7, 16, 255, 256, 257, 300, 1000])
-        if len(out) + 3 + ln > budget:
-            break
         k = rng.choice([1, 2, 3, 4, 5, 0x20, 0x21, 0x22, 0x23, 0x24, 0x25, 0x30, 0, 255, rng.below(256)])
-        out += enc_tlv(k, rng.bytes(ln))
+        if rng.chance(1, 10):
+            from . import dictionary
+            kk = dictionary.pick_int(rng, dictionary.harvest(), 256)
+            k = k if kk is None else kk
+        if rng.chance(1, 10):
+            from . import dictionary
+            v = bytes(dictionary.units(rng, 1 + rng.below(12), 256))
+        elif rng.chance(1, 4):
+            v = structured_value(rng, k)
+        else:
+            v = rng.bytes(rng.choice([0, 0, 1, 1, 2, 3, 7, 16, 255, 256, 257, 300, 1000]))
+        if len(out) + 3 + len(v) > budget:
+            break
+        out += enc_tlv(k, v)
     if not wellformed and out:
         how = rng.below(4)
         if how == 0:
@@ -199,7 +279,8 @@ def tlv_lists(tier, rng, k, n):
         items = []
         for _ in range(1 + rng.below(4)):
             ln = rng.choice([0, 1, 2, 3, 255, 256, 257, 1000])
-            items.append(enc_tlv(rng.below(256), rng.bytes(ln)))
+            kk = rng.choice([rng.below(256), rng.below(256), 0x20])
+            items.append(enc_tlv(kk, structured_value(rng, kk) if rng.chance(1, 4) else rng.bytes(ln)))
         b = b"".join(items)
         L = len(b)
         if L <= 400:
